@@ -138,4 +138,71 @@ theorem dispatchUnary_reduce (ueq : UnitV K → UnitV K → Bool) (pre : Prefixe
   simp only [dispatchUnary, hA, hr, hp, Bool.false_and, Bool.false_eq_true, if_false, Bool.true_and]
   simp
 
+/-- shape of a successful `_multiply_units` dispatch on two quantities -/
+theorem dispatch_multiply_shape (ueq : UnitV K → UnitV K → Bool) (pre : Prefixes K) (t : Lut K)
+    (f : String) (hf : ruleOf f = some .multiply) (u0 u1 : UnitV K) (z0 z1 : Bool) (o : Out K)
+    (h : dispatchBinary ueq pre t f ⟨some u0, z0⟩ ⟨some u1, z1⟩ none = .ok o) :
+    ∃ m unit, multiplyUnits pre t u0 u1 = .ok (m, unit) ∧ postMulBlock u0 u1 1 m unit = .ok o := by
+  have hc : Rule.multiply.converts = false := by decide
+  have hp : Rule.multiply.postMul = true := by decide
+  simp [dispatchBinary, binaryRule, hf, hc, hp, Except.map] at h
+  split at h; · contradiction
+  · rename_i heq
+    split at heq <;> simp at heq
+  rename_i m unit heq
+  split at heq; · contradiction
+  rename_i mu hmu
+  simp at heq
+  obtain ⟨rfl, rfl⟩ := heq
+  exact ⟨mu.1, mu.2, hmu, h⟩
+
+theorem dispatch_divide_shape (ueq : UnitV K → UnitV K → Bool) (pre : Prefixes K) (t : Lut K)
+    (f : String) (hf : ruleOf f = some .divide) (u0 u1 : UnitV K) (z0 z1 : Bool) (o : Out K)
+    (h : dispatchBinary ueq pre t f ⟨some u0, z0⟩ ⟨some u1, z1⟩ none = .ok o) :
+    ∃ m unit, divideUnits pre t u0 u1 = .ok (m, unit) ∧ postMulBlock u0 u1 1 m unit = .ok o := by
+  have hc : Rule.divide.converts = false := by decide
+  have hp : Rule.divide.postMul = true := by decide
+  simp [dispatchBinary, binaryRule, hf, hc, hp, Except.map] at h
+  split at h; · contradiction
+  · rename_i heq
+    split at heq <;> simp at heq
+  rename_i m unit heq
+  split at heq; · contradiction
+  rename_i mu hmu
+  simp at heq
+  obtain ⟨rfl, rfl⟩ := heq
+  exact ⟨mu.1, mu.2, hmu, h⟩
+
+/-- shape of a successful `power` dispatch -/
+theorem dispatch_power_shape (ueq : UnitV K → UnitV K → Bool) (pre : Prefixes K) (t : Lut K)
+    (u0 : UnitV K) (z0 z1 : Bool) (p : Rat) (o : Out K)
+    (h : dispatchBinary ueq pre t "power" ⟨some u0, z0⟩ ⟨none, z1⟩ (some p) = .ok o) :
+    ∃ ur, u0.pow p = .ok ur ∧ o = ⟨some ur, 1, 1, 1, none⟩ := by
+  have hf : ruleOf "power" = some .power := by decide
+  simp [dispatchBinary, hf, Except.map] at h
+  split at h; · contradiction
+  rename_i ur hur
+  cases h
+  exact ⟨ur, hur, rfl⟩
+
+/-- a rescaling rule that succeeds on two quantities had commensurable operands (the
+    comparison rule, which has its dimensionless exception, aside) -/
+theorem dispatch_converting_ok_dims (ueq : UnitV K → UnitV K → Bool) (hueq : UeqSound ueq)
+    (pre : Prefixes K) (t : Lut K) (f : String) (r : Rule) (hf : ruleOf f = some r)
+    (hr : r = .preserve ∨ r = .difference) (u0 u1 : UnitV K) (z0 z1 : Bool) (o : Out K)
+    (h : dispatchBinary ueq pre t f ⟨some u0, z0⟩ ⟨some u1, z1⟩ none = .ok o) : u0.dim = u1.dim := by
+  have hc : r.converts = true := by rcases hr with rfl | rfl <;> decide
+  have hnp : (r == Rule.power) = false := by rcases hr with rfl | rfl <;> decide
+  have hnc : (r == Rule.comparison) = false := by rcases hr with rfl | rfl <;> decide
+  cases he : ueq u0 u1
+  · by_cases hd : u0.dim = u1.dim
+    · exact hd
+    · exfalso
+      have hd' : (u0.dim != u1.dim) = true := by simpa using hd
+      simp only [dispatchBinary, hf, hnp, hc, hnc] at h
+      split at h
+      · contradiction
+      · simp [he, hd] at h
+  · exact (hueq _ _ he).2.2
+
 end Unyt.UV
